@@ -49,9 +49,9 @@ def sh(cmd, cwd=None, timeout=600, env=None, stdin=None, check=False):
     return p.returncode, p.stdout, time.time() - t0
 
 
-def build_harness(race=False):
-    """Rebuild the Go harness against /repo's current working tree with the verif hooks enabled."""
-    out = BIN + ("-race" if race else "")
+def build_harness(race=False, name="vharness"):
+    """Rebuild a Go harness binary (harness/cmd/<name>) against /repo's current working tree, verif hooks enabled."""
+    out = os.path.join(HARNESS, "bin", name) + ("-race" if race else "")
     os.makedirs(os.path.dirname(out), exist_ok=True)
     # go.sum of the harness must cover /repo's dependencies
     try:
@@ -69,7 +69,7 @@ def build_harness(race=False):
     if race:
         cmd.insert(2, "-race")
         env["CGO_ENABLED"] = "1"
-    cmd.append("./cmd/vharness")
+    cmd.append("./cmd/" + name)
     rc, o, dt = sh(cmd, cwd=HARNESS, env=env, timeout=900)
     if rc != 0:
         raise Fatal("harness build failed against %s:\n%s" % (REPO, o[-4000:]))
@@ -191,8 +191,10 @@ class Ctx:
         return self.tier != "thorough"
 
     # ---- building blocks -------------------------------------------------------------------------------------
-    def build(self, race=False):
-        b = build_harness(race)
+    def build(self, race=False, name="vharness"):
+        """name: the harness command under harness/cmd/ (each family has its own binary so that one family's
+        compile problem cannot break another's check)."""
+        b = build_harness(race, name)
         if not race:
             self.bin = b
         return b
